@@ -14,9 +14,18 @@ RULE = ('histories of dispatcher operations, every one run on the real code and 
         'packages on disk) driven through the real `load`/`unload`/`reload` commands as an owner, with injected ImportError / other import '
         'exception / raising __init__ / raising die().  Direct oracle on the implementation after every operation: names registered once '
         '(case-insensitively), every declared constraint between registered callbacks holds in the list order, Owner at index 0, the '
-        'registered set equals the set the history asked for (failed operations change nothing, Owner never leaves), and at the end of a '
-        'live history every plugin command is answered iff its plugin is in that set.  non-trivial = history with at least 2 operations')
-TRUSTED = ['str.lower() enters the model as a Section variable (theorems hold for any fold function); the extracted instance is the ASCII fold '
+        'registered set equals the set the history asked for (failed operations change nothing, Owner never leaves), every Irc object of the bot '
+        '(two networks sharing irclib._callbacks, operations issued through either, plus one Irc created after the history) sees the same list, and '
+        'at the end of a live history every synthetic plugin command, bare and plugin-qualified, is sent on every network: answered by a loaded '
+        'plugin that has it (or the ambiguity error naming exactly the loaded holders), never by an unloaded one.  The final-state resolution '
+        '(called plugin / ambiguous set / invalid, under generated defaultPlugins + importantPlugins settings) and the per-Irc views are also '
+        'compared with the extracted model.  non-trivial = history with at least 2 operations')
+TRUSTED = ['command resolution is modelled for plugins without sub-command groups and without disabled commands; callbacks.canonicalName is a Section '
+           'variable (extracted instance: drop TAB - _ SPACE and ASCII-lower; generators use alphanumeric names); `L >= maxL` on two prefixes of '
+           'the token list is modelled as comparison of lengths; tokenising and nested commands are C13/C14',
+           'T20 also pins (fail-closed) that no write to self.callbacks in class Irc rebinds the attribute outside __init__ and that Irc.__init__ '
+           'defaults to the module-level _callbacks list; the Coq lemma callbacks_never_rebound recomputes it on the regenerated inventory',
+           'str.lower() enters the model as a Section variable (theorems hold for any fold function); the extracted instance is the ASCII fold '
            'and the generators use ASCII names',
            'ircutils.strEqual(name, "Owner") (rfc1459 fold) is modelled by the same fold as getCallback (they agree on every name that folds to "owner")',
            'plugin.loadPluginModule file lookup (os.listdir + (?i) regex, importlib) is reduced to: unknown name / ImportError / other exception / module; '
@@ -34,7 +43,10 @@ LEVEL_TEXT = ('Coq theorems over an executable Gallina model of Irc.addCallback/
               '(acyclic) edge set is never rejected, a closed walk (incl. a self-reference) always is; every resolvable callBefore/callAfter is honoured; '
               'Owner-shaped callback ends up first; names stay unique and Owner stays registered and first over all histories; a failed load keeps the '
               'registered list (full statement); a reload whose import fails keeps the registered set; a reload whose new constructor / old die() raises still '
-              'loses the plugin (refuting witness, known finding C20.F21).  Tied to the source by regenerated shape tables and a per-operation differential run.')
+              'loses the plugin (refuting witness, known finding C20.F21); history-level invariant (registered once, topological order of all declared '
+              'constraints, Owner first) by induction over histories, failed operations leave a permutation on the stated domain; command resolution '
+              '(findCallbacksForArgs/finalEval): only commands of registered callbacks resolve, invalid iff nobody has it, plugin-qualified form never '
+              'shadowed, bare form = holders narrowed by the three documented rules; all Irc objects see one list (table lemma callbacks_never_rebound).  Tied to the source by regenerated shape tables and a per-operation differential run.')
 LEVEL_NOTE = ('Trusted: Coq kernel, gen_tables/t20.py, extraction + OCaml driver, the Python harness; str.lower is a Section variable; '
               'Python code is modelled not verified; command dispatch itself (C14) is not modelled: the command-set clause is checked directly on the live bot '
               'and in the model reduces to membership in the registered list.')
@@ -66,25 +78,35 @@ def env():
             f.write(PLUGIN_SRC % {'n': n, 'l': n.lower()})
         with open(os.path.join(pd, n, 'ctl.json'), 'w') as f:
             json.dump({}, f)
-    irc = irclib.Irc('test', callbacks=[])
-
+    # two networks, as a bot with two configured networks has them: both Irc objects are built with the default
+    # `callbacks=_callbacks`, i.e. they share the ONE module-level dispatcher list
     class Drv:
         def reconnect(self, *a, **k): pass
         def die(self): pass
-    irc.driver = Drv()
-    while irc.takeMsg():
-        pass
+    for net in ('other', 'late'):
+        conf.registerNetwork(net)
+        conf.supybot.networks.get(net).servers.set('should.not.need.this:6667')
+    del irclib._callbacks[:]
+
+    def mk_irc(net):
+        x = irclib.Irc(net)
+        x.driver = Drv()
+        while x.takeMsg():
+            pass
+        x.feedMsg(ircmsgs.IrcMsg(':srv 001 test :welcome'))
+        while x.takeMsg():
+            pass
+        return x
+    irc = mk_irc('test')
+    irc2 = mk_irc('other')
     u = ircdb.users.newUser()
     u.name = 'boss'
     u.addCapability('owner')
     u.addHostmask('boss!u@h')
     ircdb.users.setUser(u)
-    irc.feedMsg(ircmsgs.IrcMsg(':srv 001 test :welcome'))
-    while irc.takeMsg():
-        pass
     om = plugin.loadPluginModule('Owner')
     mm = plugin.loadPluginModule('Misc')
-    _env.update(dict(dir=d, pd=pd, irc=irc, irclib=irclib, ircmsgs=ircmsgs, plugin=plugin, conf=conf,
+    _env.update(dict(dir=d, pd=pd, irc=irc, ircs=[irc, irc2], mk_irc=mk_irc, world=world, irclib=irclib, ircmsgs=ircmsgs, plugin=plugin, conf=conf,
                      owner_cp=om.Class.__dict__['callPrecedence'], misc_cp=mm.Class.__dict__['callPrecedence'],
                      modules={'Owner': om, 'Misc': mm}))
     return _env
@@ -112,8 +134,13 @@ class %(n)s(callbacks.Plugin):
         if _ctl().get('die'):
             raise RuntimeError('boom in die')
         super().die()
-    def cmd%(l)s(self, irc, msg, args):
-        irc.reply('pong-%(n)s')
+def _mk(cmd):
+    def f(self, irc, msg, args):
+        irc.reply('pong-%(n)s-' + cmd)
+    f.__name__ = cmd
+    return f
+for _cmd in _c.get('cmds', ()):
+    setattr(%(n)s, _cmd, _mk(_cmd))
 Class = %(n)s
 '''
 
@@ -148,8 +175,8 @@ def exn_class(ex):
     return 'AssertionError' if isinstance(ex, AssertionError) else 'OtherError'
 
 
-def say(e, text):
-    irc = e['irc']
+def say(e, text, h=0):
+    irc = e['ircs'][h]
     irc.feedMsg(e['ircmsgs'].privmsg('test', text, prefix='boss!u@h'))
     out = []
     while True:
@@ -170,13 +197,13 @@ def reply_class(out):
     return ['?', out]
 
 
-def names(e):
-    return [c.name() for c in e['irc'].callbacks]
+def names(e, h=0):
+    return [c.name() for c in e['ircs'][h].callbacks]
 
 
-def impl_step(e, world, op):
-    """run one operation on the real code; returns the canonical reply"""
-    irc, plugin = e['irc'], e['plugin']
+def impl_step(e, world, op, h=0):
+    """run one operation on the real code through Irc object number h; returns the canonical reply"""
+    irc, plugin = e['ircs'][h], e['plugin']
     k = op[0]
     if k == 'add':
         try:
@@ -191,7 +218,7 @@ def impl_step(e, world, op):
         try:
             sp = spec_of(world, op[1])
             if sp is not None and sp[0] in SYN_PLUGINS:
-                set_ctl(e, sp[0], before=sp[2], after=sp[3])
+                set_ctl(e, sp[0], cmds=sp[4], before=sp[2], after=sp[3])
             plugin.loadPluginClass(irc, plugin.loadPluginModule(op[1]))
             return ['ok', 0]
         except Exception as ex:
@@ -201,21 +228,32 @@ def impl_step(e, world, op):
     syn = sp is not None and sp[0] in SYN_PLUGINS
     if k == 'load':
         if syn:
-            set_ctl(e, sp[0], before=sp[2], after=sp[3], imp=op[2], init=op[3])
-        return reply_class(say(e, 'load ' + name))
+            set_ctl(e, sp[0], cmds=sp[4], before=sp[2], after=sp[3], imp=op[2], init=op[3])
+        return reply_class(say(e, 'load ' + name, h))
     if k == 'unload':
         if syn:
-            set_ctl(e, sp[0], before=sp[2], after=sp[3], die=op[2])
-        return reply_class(say(e, 'unload ' + name))
+            set_ctl(e, sp[0], cmds=sp[4], before=sp[2], after=sp[3], die=op[2])
+        return reply_class(say(e, 'unload ' + name, h))
     if k == 'reload':
         if syn:
-            set_ctl(e, sp[0], before=sp[2], after=sp[3], imp=op[2], init=op[3], die=op[4])
-        return reply_class(say(e, 'reload ' + name))
+            set_ctl(e, sp[0], cmds=sp[4], before=sp[2], after=sp[3], imp=op[2], init=op[3], die=op[4])
+        return reply_class(say(e, 'reload ' + name, h))
     raise ValueError(op)
 
 
+def drop_late(e):
+    while len(e['ircs']) > 2:
+        x = e['ircs'].pop()
+        if x in e['world'].ircs:
+            e['world'].ircs.remove(x)
+
+
 def reset(e):
-    e['irc'].callbacks[:] = []
+    drop_late(e)
+    shared = e['irclib']._callbacks
+    for x in e['ircs']:
+        x.callbacks = shared          # (a mutated tree may have rebound it)
+    del shared[:]
     for n in SYN_PLUGINS:
         set_ctl(e, n)
 
@@ -224,8 +262,9 @@ def impl_run(e, inp, upto=None):
     """-> list of (reply, names-after) per operation"""
     reset(e)
     out = []
-    for op in inp['ops'][:upto]:
-        r = impl_step(e, inp['world'], op)
+    via = inp.get('via') or [0] * len(inp['ops'])
+    for op, h in list(zip(inp['ops'], via))[:upto]:
+        r = impl_step(e, inp['world'], op, h)
         out.append((r, names(e)))
     return out
 
@@ -324,38 +363,138 @@ def spec_update(want, world, op, reply):
     return want      # reload never changes the set
 
 
-def check_commands(e, inp, want):
+DEFAULT_IMPORTANT = ['Admin', 'Channel', 'Config', 'Misc', 'Owner', 'User']
+
+
+def apply_cfg(e, inp):
+    """install the history's defaultPlugins configuration; -> the complete configuration the dispatcher then sees
+    (the entries registered by the Owner module itself included), for the model"""
+    import supybot.registry as registry
+    conf = e['conf']
+    dp = conf.supybot.commands.defaultPlugins
+    cfg = inp.get('cfg') or {}
+    for name in list(e.setdefault('cfg_added', [])):
+        try:
+            dp.unregister(name)
+        except Exception:
+            pass
+    e['cfg_added'] = []
+    for cmd, plug in cfg.get('defaults', []):
+        if cmd not in dp._children:
+            e['cfg_added'].append(cmd)
+        conf.registerGlobalValue(dp, cmd, registry.String(plug, ''))
+        dp.get(cmd).set(plug)
+    dp.importantPlugins.setValue(set(cfg.get('important', DEFAULT_IMPORTANT)))
+    full = [[k, v()] for k, v in sorted(dp._children.items()) if k != 'importantPlugins']
+    return [full, sorted(dp.importantPlugins())]
+
+
+def resolution_queries(inp):
+    """canonical token lists to resolve at the end of a live history"""
+    qs = []
     for sp in inp['world']:
+        if sp[0] not in SYN_PLUGINS:
+            continue                  # commands of bundled plugins are real ones (quit, flush, ...): never sent
+        p = sp[0].lower()
         for cmd in sp[4]:
-            out = say(e, cmd)
-            answered = out == ['pong-' + sp[0]]
-            if answered != (sp[0].lower() in want):
-                return 'command %s of plugin %s: bot replied %r but the plugin is %sloaded' % (
-                    cmd, sp[0], out, '' if sp[0].lower() in want else 'not ')
+            for q in ([cmd], [p, cmd]):
+                if q not in qs:
+                    qs.append(q)
+    return qs
+
+
+def observe(out):
+    """bot reply -> ['call', Plugin, command] | ['ambiguous', sorted names] | ['invalid']"""
+    if len(out) == 1 and out[0].startswith('pong-'):
+        _, plug, cmd = out[0].split('-', 2)
+        return ['call', plug, cmd]
+    m = re.match(r'Error: The command "[^"]*" is available in the (.*) plugins\.', out[0]) if len(out) == 1 else None
+    if m:
+        return ['ambiguous', sorted(x for x in re.split(r', and | and |, ', m.group(1)) if x)]
+    return ['invalid']
+
+
+def check_commands(e, inp, want):
+    """direct oracle for the command-set clause + the observations for the model comparison.
+    -> (failure text or None, [(query, observation)])"""
+    obs = []
+    bad = None
+    loaded = [sp for sp in inp['world'] if sp[0].lower() in want]
+    for q in resolution_queries(inp):
+        o = observe(say(e, ' '.join(q)))
+        obs.append((q, o))
+        if bad:
+            continue
+        cmd = q[-1]
+        if len(q) == 2:
+            holders = [sp[0] for sp in loaded if sp[0].lower() == q[0] and cmd in sp[4]]
+            # a loaded plugin may also own a command called like the first token: then that command is what is meant
+            alt = [sp[0] for sp in loaded if q[0] in sp[4]]
+            if holders and o != ['call', holders[0], cmd]:
+                bad = 'command %r of loaded plugin %s: bot answered %r' % (' '.join(q), holders[0], o)
+            if not holders and o[0] == 'call' and not (o[1] in alt and o[2] == q[0]):
+                bad = '%r answered %r although no loaded plugin %s has command %s' % (' '.join(q), o, q[0], cmd)
+        else:
+            holders = sorted(sp[0] for sp in loaded if cmd in sp[4])
+            if not holders and o[0] != 'invalid':
+                bad = 'command %r answered %r but no loaded plugin has it' % (cmd, o)
+            elif holders and o[0] == 'call' and (o[1] not in holders or o[2] != cmd):
+                bad = 'command %r answered by %r; loaded plugins having it: %r' % (cmd, o, holders)
+            elif holders and o[0] == 'ambiguous' and (o[1] != holders or len(holders) < 2):
+                bad = 'command %r reported ambiguous between %r; loaded plugins having it: %r' % (cmd, o[1], holders)
+            elif holders and o[0] == 'invalid':
+                bad = 'command %r of loaded plugin(s) %r is not answered' % (cmd, holders)
+    return bad, obs
+
+
+def networks_agree(e, what):
+    """every Irc object of the bot must see the same dispatcher list (it is one shared list object)"""
+    ref = names(e, 0)
+    for h in range(1, len(e['ircs'])):
+        if names(e, h) != ref:
+            return '%s: network %s has plugins %r but network %s has %r' % (
+                what, e['ircs'][0].network, ref, e['ircs'][h].network, names(e, h))
     return None
 
 
-def oracle_run(e, inp):
-    """run the history on the implementation; -> (trace, failure text or None)"""
+def oracle_run(e, inp, late=True):
+    """run the history on the implementation (operation i through Irc object via[i]); -> (trace, failure text or None);
+    e['last_obs'] = (cfg, observations), e['last_views'] = callback names per Irc object (a late-created one included)"""
     reset(e)
+    e['last_obs'] = e['last_views'] = None
+    full_cfg = apply_cfg(e, inp)
     trace, want = [], set()
     live = False
-    for op in inp['ops']:
-        if op[0] in ('load', 'unload', 'reload') and e['irc'].getCallback('Owner') is None:
+    via = inp.get('via') or [0] * len(inp['ops'])
+    for op, h in zip(inp['ops'], via):
+        if op[0] in ('load', 'unload', 'reload') and e['ircs'][h].getCallback('Owner') is None:
             break       # no dispatcher to talk to: the rest of the history is meaningless (an earlier check has flagged its loss)
-        r = impl_step(e, inp['world'], op)
-        trace.append((r, names(e)))
+        r = impl_step(e, inp['world'], op, h)
+        trace.append((r, names(e, h)))
         live = live or op[0] in ('load', 'unload', 'reload')
         want = spec_update(want, inp['world'], op, r)
         if r[0] == '?':
             return trace, 'unexpected reply to %r: %r' % (op, r[1])
-        bad = check_state(e, want)
+        bad = check_state(e, want) or networks_agree(e, 'after %r issued on network %s' % (op, e['ircs'][h].network))
         if bad:
-            return trace, 'after %r: %s' % (op, bad)
-    if live and 'owner' in want:
-        bad = check_commands(e, inp, want)
+            return trace, ('after %r: %s' % (op, bad)) if not bad.startswith('after') else bad
+    if late and len(trace) == len(inp['ops']):
+        e['ircs'].append(e['mk_irc']('late'))       # an Irc created after the history (a later `connect`)
+        e['last_views'] = [names(e, h) for h in range(len(e['ircs']))]
+        bad = networks_agree(e, 'an Irc object created after the history')
         if bad:
             return trace, bad
+    if live and 'owner' in want and len(trace) == len(inp['ops']):
+        bad, obs = check_commands(e, inp, want)
+        e['last_obs'] = (full_cfg, obs)
+        if bad:
+            return trace, bad
+        for h in range(1, len(e['ircs'])):
+            for q, o in obs:
+                o2 = observe(say(e, ' '.join(q), h))
+                if o2 != o:
+                    return trace, 'command %r: network %s answers %r, network %s answers %r' % (
+                        ' '.join(q), e['ircs'][0].network, o, e['ircs'][h].network, o2)
     return trace, None
 
 
@@ -512,10 +651,11 @@ def gen_live(rng, bundled_ok):
     k = rng.randint(2, len(SYN_PLUGINS))
     pool = rng.sample(SYN_PLUGINS, k)
     rank = {x: i for i, x in enumerate(rng.sample(pool, k))}
-    world = [['Owner', 1, [], [], []], ['Misc', 2, [], [], []], ['Config', 0, [], [], []]]
+    world = [['Owner', 1, [], [], BUNDLED_CMDS.get('Owner', [])], ['Misc', 2, [], [], BUNDLED_CMDS.get('Misc', [])],
+             ['Config', 0, [], [], BUNDLED_CMDS.get('Config', [])]]
     extra = [b for b in bundled_ok if b not in ('Owner', 'Misc', 'Config')]
     for b in extra:
-        world.append([b, 0] + [list(x) for x in BUNDLED_PREC.get(b, ((), ()))] + [[]])
+        world.append([b, 0] + [list(x) for x in BUNDLED_PREC.get(b, ((), ()))] + [BUNDLED_CMDS.get(b, [])])
     for x in pool:
         before, after = [], []
         for y in pool + extra[:2]:
@@ -544,7 +684,16 @@ def gen_live(rng, bundled_ok):
                     (after if rank[x] < rank[y] else before).append(y)
         if style == 'selfref' and rng.random() < 0.5:
             (before if rng.random() < 0.5 else after).insert(0, x)
-        world.append([x, 0, before, after, ['cmd' + x.lower()]])
+        cmds = ['cmd' + x.lower()]
+        if rng.random() < 0.6:
+            cmds.append('shared')
+        if rng.random() < 0.4:
+            cmds.append(x.lower())                         # a command called like its own plugin
+        if rng.random() < 0.3:
+            cmds.append(rng.choice(pool).lower())          # ... or like another plugin
+        if rng.random() < 0.2:
+            cmds.append('common')
+        world.append([x, 0, before, after, sorted(set(cmds))])
     ops = [['boot', 'Owner']]
     rest = ['Misc', 'Config'] if rng.random() < 0.8 else ['Config']
     rng.shuffle(rest)
@@ -568,9 +717,19 @@ def gen_live(rng, bundled_ok):
             init = int(fail and imp == 0 and rng.random() < 0.5)
             die = int(fail and imp == 0 and not init)
             ops.append(['reload', x, imp, init, die])
-    return {'world': world, 'ops': ops}
+    cfg = {}
+    r = rng.random()
+    if r < 0.4:
+        cfg['defaults'] = [[c, rng.choice(pool + ['Config', 'NoSuchPlugin', ''])] for c in rng.sample(['shared', 'common'] + [x.lower() for x in pool], 2)]
+    if rng.random() < 0.4:
+        # the standard important plugins stay (the harness itself relies on `load` resolving to Owner when Karma, which has a
+        # `load` command of its own, is loaded)
+        cfg['important'] = DEFAULT_IMPORTANT + rng.sample(pool, rng.randint(1, min(2, len(pool))))
+    via = [rng.choice([0, 0, 1]) for _ in ops]
+    return {'world': world, 'ops': ops, 'cfg': cfg, 'via': via}
 
 
+BUNDLED_CMDS = {}      # name -> flat command names (what isCommandMethod accepts)
 BUNDLED_PREC = {}      # name -> (callBefore, callAfter) read from the loaded class
 
 
@@ -580,6 +739,10 @@ def probe_bundled(e):
         try:
             c = e['plugin'].loadPluginModule(b).Class
             BUNDLED_PREC[b] = (tuple(c.callBefore), tuple(c.callAfter))
+            import inspect
+            from supybot.callbacks import canonicalName
+            BUNDLED_CMDS[b] = sorted(n for n in dir(c) if n == canonicalName(n) and inspect.isfunction(getattr(c, n, None))
+                                     and inspect.getargs(getattr(c, n).__code__)[0] == ['self', 'irc', 'msg', 'args'])
             ok.append(b)
         except Exception:
             pass
@@ -609,6 +772,25 @@ CORPUS = [
     # was C20.F24: reload after a reload that failed with ImportError raised KeyError and lost the plugin (fixed)
     {'world': [['Owner', 1, [], [], []], ['Gamma', 0, [], [], ['cmdgamma']]],
      'ops': [['boot', 'Owner'], ['load', 'Gamma', 0, 0], ['reload', 'Gamma', 1, 0, 0], ['reload', 'gamma', 0, 0, 0]]},
+    # two networks: unload/reload/load issued on one network must be seen by the other and by an Irc created later
+    # (a seeded change rebinding self.callbacks in Irc.removeCallback was missed by a one-Irc harness)
+    {'world': [['Owner', 1, [], [], []], ['Misc', 2, [], [], []], ['Alpha', 0, [], [], ['cmdalpha']], ['Beta', 0, [], [], ['cmdbeta']],
+               ['Gamma', 0, [], [], ['cmdgamma']]],
+     'ops': [['boot', 'Owner'], ['boot', 'Misc'], ['load', 'Alpha', 0, 0], ['load', 'Beta', 0, 0], ['unload', 'Alpha', 0],
+             ['reload', 'Beta', 0, 0, 0], ['load', 'Gamma', 0, 0], ['unload', 'Beta', 0]],
+     'via': [0, 0, 0, 1, 0, 1, 0, 1]},
+    # command resolution: own-name rule, default plugin, important plugin, ambiguity, qualified form, unloaded plugin
+    {'world': [['Owner', 1, [], [], []], ['Misc', 2, [], [], []],
+               ['Alpha', 0, [], [], ['alpha', 'cmdalpha', 'common', 'shared']], ['Beta', 0, [], [], ['alpha', 'cmdbeta', 'common', 'shared']],
+               ['Gamma', 0, [], [], ['cmdgamma', 'shared', 'third']], ['Delta', 0, [], [], ['cmddelta', 'third', 'zeta']],
+               ['Zeta', 0, [], [], ['cmdzeta', 'third']]],
+     'ops': [['boot', 'Owner'], ['boot', 'Misc'], ['load', 'Alpha', 0, 0], ['load', 'Beta', 0, 0], ['load', 'Gamma', 0, 0],
+             ['load', 'Delta', 0, 0], ['load', 'Zeta', 0, 0], ['unload', 'zeta', 0]],
+     'cfg': {'defaults': [['shared', 'Gamma'], ['common', 'NoSuchPlugin']], 'important': DEFAULT_IMPORTANT + ['Delta']}},
+    {'world': [['Owner', 1, [], [], []], ['Misc', 2, [], [], []],
+               ['Alpha', 0, [], [], ['cmdalpha', 'shared']], ['Beta', 0, [], [], ['cmdbeta', 'shared']]],
+     'ops': [['boot', 'Owner'], ['boot', 'Misc'], ['load', 'Alpha', 0, 0], ['load', 'Beta', 0, 0], ['reload', 'Alpha', 2, 0, 0]],
+     'cfg': {'defaults': [['shared', 'Alpha']]}},
     # was C20.F22: cyclic load reported an error but the plugin stayed registered behind Misc (fixed)
     {'world': [['Owner', 1, [], [], []], ['Misc', 2, [], [], []], ['Alpha', 0, ['Owner'], [], ['cmdalpha']]],
      'ops': [['boot', 'Owner'], ['boot', 'Misc'], ['load', 'Alpha', 0, 0]]},
@@ -622,13 +804,16 @@ def run(ctx):
     bundled_ok = probe_bundled(e)
     ctx.notes.append('bundled plugins used: %s' % ' '.join(bundled_ok))
     cases = [(c, 'corpus') for c in CORPUS]
-    for _ in range(ctx.n(2000)):
+    for _ in range(ctx.n(1000)):
         cases.append((gen_syn(rng), 'syn'))
-    for _ in range(ctx.n(350)):
+    for _ in range(ctx.n(220)):
         cases.append((gen_live(rng, bundled_ok), 'live'))
-    traces, fails = [], []
-    for inp, kind in cases:
-        tr, bad = oracle_run(e, inp)
+    traces, fails, observed, views = [], [], [], []
+    for i, (inp, kind) in enumerate(cases):
+        # an Irc object created after the history: always for live histories, for every third synthetic one (cost)
+        tr, bad = oracle_run(e, inp, late=(kind != 'syn' or i % 3 == 0))
+        observed.append(e['last_obs'])
+        views.append(e['last_views'])
         sub = kind
         if kind != 'corpus':
             sub += ('-selfref' if has_self_reference(inp) else '-cyclic' if has_cycle(inp) else
@@ -646,6 +831,25 @@ def run(ctx):
         if mt != it:
             i = next((i for i, (a, b) in enumerate(zip(mt, it)) if a != b), min(len(mt), len(it)))
             ctx.disagree(inp, mt[i:i + 1], it[i:i + 1], 'operation #%d %r' % (i, inp['ops'][i] if i < len(inp['ops']) else None))
+    # command resolution in the final state of every live history: model vs bot
+    rq = [(inp, tr, ob) for (inp, _), tr, ob in zip(cases, traces, observed) if ob]
+    outs = ctx.model([[1, wire_case(inp, tr)[1] + [ob[0], [q for q, _ in ob[1]]]] for inp, tr, ob in rq])
+    for (inp, tr, ob), o in zip(rq, outs):
+        if o is None:
+            continue
+        for (q, seen), m in zip(ob[1], o):
+            mo = (['invalid'] if m[0] == 0 else ['ambiguous', sorted(wire.ls(m[1]))] if m[0] == 1
+                  else ['call', wire.s(m[1]), q[m[2] - 1]])
+            if mo != seen:
+                ctx.disagree(inp, mo, seen, 'resolution of %r in the final state' % ' '.join(q))
+                break
+    # what every Irc object (two networks + one created afterwards) sees at the end: model vs bot
+    vq = [(inp, tr, vw) for (inp, _), tr, vw in zip(cases, traces, views) if vw]
+    outs = ctx.model([[2, wire_case(inp, tr)[1] + [(inp.get('via') or [0] * len(inp['ops'])), len(vw) - 2]] for inp, tr, vw in vq])
+    for (inp, tr, vw), o in zip(vq, outs):
+        if o is not None and [wire.ls(x) for x in o] != vw:
+            ctx.disagree(inp, [wire.ls(x) for x in o], vw, 'callback lists seen by the Irc objects at the end of the history')
+    apply_cfg(e, {})
     reset(e)
 
 
@@ -659,6 +863,7 @@ def replay(ctx, inp):
 
 def shrink(ctx, inp):
     def fails(ops):
-        return replay(ctx, {'world': inp['world'], 'ops': list(ops)}) is not None
-    ops = shrink_seq(list(inp['ops']), fails, budget=150)
-    return {'world': inp['world'], 'ops': ops}
+        return replay(ctx, dict(inp, ops=[o for o, _ in ops], via=[h for _, h in ops])) is not None
+    pairs = list(zip(inp['ops'], inp.get('via') or [0] * len(inp['ops'])))
+    pairs = shrink_seq(pairs, fails, budget=150)
+    return dict(inp, ops=[o for o, _ in pairs], via=[h for _, h in pairs])
